@@ -25,6 +25,12 @@ META = {
 }
 
 XZ = "/root/miniconda/bin/xz"
+VLOCK = threading.Lock()     # ctx.violation numbers replay files; two sides of this check run concurrently
+
+
+def report(ctx, what, rep):
+    with VLOCK:
+        return ctx.violation(what, rep)
 
 GEN_QUICK = dict(GenMaxStreams=1, GenMaxBlocks=1, GenMaxChunks=2, GenMaxOff=600000, GenUs="{1, 2097152}", GenCs="{5, 6}",
                  GenRaw="{1}", GenSb="{2}", GenDeclC="{12}", GenDeclU="{1}", GenChecks="{1}")
@@ -204,7 +210,7 @@ def check_traces(ctx, binp, drv, text, stats):
         enc_hex = None
         if os.path.exists(dump) and os.path.getsize(dump) <= 4096:
             enc_hex = open(dump, "rb").read().hex()
-        ctx.violation(what, {
+        report(ctx, what, {
             "kind": "trace", "key": "trace:%s:%s:%d" % (reset["fmt"], reset["class"], reset["plen"]),
             "fmt": reset["fmt"], "class": reset["class"], "plen": reset["plen"], "pseed": reset["pseed"],
             "matched_events": m2, "rejected_event": evs[m2] if m2 < len(evs) else None,
@@ -217,6 +223,27 @@ def check_traces(ctx, binp, drv, text, stats):
             ctx.log("stopping after %d rejected traces; %d traces not examined" % (reported, len(remaining)))
             break
     return accepted, reported
+
+
+def canary(ctx, text, both=True):
+    """Self-test of the binding: damage one recorded field (the footer's
+    Backward Size, and the round-trip verdict) of a real trace and require
+    that TLC rejects the trace exactly there."""
+    t = next((t for t in split_traces(text) if t[0]["fmt"] == "xz" and t[0]["plen"] > 0), None)
+    if t is None:
+        return 0
+    n = 0
+    for field, fn in (("footer", lambda e: e.update(bsize=e["bsize"] + 1)), ("eof", lambda e: e.update(wuffs="mismatch")))[:2 if both else 1]:
+        lines = list(t[1])
+        idx = next(i for i, l in enumerate(lines) if json.loads(l)["ev"] == field)
+        e = json.loads(lines[idx])
+        fn(e)
+        lines[idx] = json.dumps(e)
+        ok, matched, _ = validate(ctx, "\n".join(lines) + "\n", "canary: damaged %s" % field)
+        if ok or matched != idx:
+            raise ToolingError("acceptor self-test failed: damaged %s event at %d, TLC says ok=%s matched=%d" % (field, idx, ok, matched))
+        n += 1
+    return n
 
 
 # -------------------------------------------------------------- totality side
@@ -241,7 +268,7 @@ def check_totality(ctx, binp):
             if "timeout after" not in str(e):
                 raise
         data = open(f, "rb").read()
-        ctx.violation("litonlylzma %s Decode does not return within %d s on a %d-byte input" % (fm, 4 * budget // 1000, len(data)),
+        report(ctx, "litonlylzma %s Decode does not return within %d s on a %d-byte input" % (fm, 4 * budget // 1000, len(data)),
                       {"kind": "hang", "key": "hang:" + vlib.sha(data), "fmt": fm, "input_hex": data[:65536].hex(), "inlen": len(data)})
         return 0, None
     if r.returncode != 0:
@@ -272,7 +299,7 @@ def check_totality(ctx, binp):
         what = "litonlylzma %s Decode on a %d-byte input (%s): %s" % (
             fm, len(data), st["kinds"][row[6]] if isinstance(st["kinds"], list) else row[6],
             "panic: " + r2.stdout.split("panic:", 1)[-1].strip()[:300] if rep["panicked"] else "output %d bytes > 42 * input" % rep["outlen"])
-        ctx.violation(what, {"kind": "decode", "key": "decode:" + vlib.sha(data), "fmt": fm, "row": row, "input_hex": data[:65536].hex(),
+        report(ctx, what, {"kind": "decode", "key": "decode:" + vlib.sha(data), "fmt": fm, "row": row, "input_hex": data[:65536].hex(),
                              "inlen": len(data), "regen": {"tier": ctx.tier, "seed": ctx.seed, "row": k}})
     return nrows, st
 
@@ -330,6 +357,16 @@ def run(ctx):
         if not have_xz:
             ctx.log("xz_unavailable: %s is missing; traces record xz=xz_unavailable" % XZ)
 
+        tot, tot_err = [], []
+
+        def totality_side():
+            try:
+                tot.append(check_totality(ctx, binp))
+            except Exception as e:  # noqa
+                tot_err.append(e)
+        th2 = threading.Thread(target=totality_side)
+        th2.start()
+
         d = ctx.subdir("traces")
         tp, sp = os.path.join(d, "trace.ndjson"), os.path.join(d, "stats.json")
         r = ctx.run([binp, "-mode", "traces", "-tier", ctx.tier, "-seed", str(ctx.seed), "-out", tp, "-stats", sp,
@@ -342,12 +379,17 @@ def run(ctx):
         ctx.log("%d traces, %d events recorded" % (len(stats["traces"]), nev))
         accepted, rejected = check_traces(ctx, binp, drv, text, stats)
         ctx.log("traces accepted by TLC: %d, rejected: %d" % (accepted, rejected))
-
-        nrows, tst = check_totality(ctx, binp)
+        ncanary = canary(ctx, text, both=(ctx.tier == "thorough")) if rejected == 0 else 0
+        th2.join()
+        if tot_err:
+            raise tot_err[0]
+        nrows, tst = tot[0]
         ctx.log("Decode table: %d rows; largest observed |out|/|in| = %s" % (
             nrows, ("%d/%d" % (tst["max_ratio_out"], tst["max_ratio_in"])) if tst else "n/a"))
     finally:
         th.join()
+        if "th2" in locals():
+            th2.join()
     if errors:
         raise errors[0]
 
@@ -384,6 +426,7 @@ def run(ctx):
         "traces_validated_against_impl": accepted,
         "trace_events": nev,
         "traces_rejected": rejected,
+        "damaged_traces_rejected_by_tlc_selftest": ncanary,
         "xz_tool": "available" if have_xz else "xz_unavailable",
         "xz_multi_chunk_traces": len(multi),
         "lzma2_chunks_seen": {"lzma": lz, "uncompressed": raw},
@@ -417,7 +460,7 @@ def replay(ctx, path):
         if ok:
             print("REPLAY: trace accepted (%d events) - not reproduced" % matched)
         else:
-            ctx.violation("replayed: litonlylzma %s class=%s len=%d: %s" % (rep["fmt"], rep["class"], rep["plen"], describe(evs, matched)), rep)
+            report(ctx, "replayed: litonlylzma %s class=%s len=%d: %s" % (rep["fmt"], rep["class"], rep["plen"], describe(evs, matched)), rep)
     else:
         d = ctx.subdir("rp")
         inp = os.path.join(d, "in.bin")
@@ -427,7 +470,7 @@ def replay(ctx, path):
                 ctx.run([binp, "-mode", "decodeone", "-fmt", rep["fmt"], "-in", inp], timeout=80)
                 print("REPLAY: Decode returned - not reproduced")
             except ToolingError:
-                ctx.violation("replayed: Decode does not return within 80 s", rep)
+                report(ctx, "replayed: Decode does not return within 80 s", rep)
             return
         r = ctx.run([binp, "-mode", "decodeone", "-fmt", rep["fmt"], "-in", inp], timeout=600)
         o = json.loads(r.stdout.splitlines()[0])
@@ -435,6 +478,6 @@ def replay(ctx, path):
         res = ctx.tlc("LzmaExpansion", cfg="rows.cfg", data={"rows.cfg": ROWS_CFG, "rows.json": json.dumps([row])}, timeout=600, heap="2g")
         print(r.stdout)
         if res["violated"]:
-            ctx.violation("replayed: Decode row rejected by LzmaExpansion!RowOK: " + r.stdout.strip()[:400], rep)
+            report(ctx, "replayed: Decode row rejected by LzmaExpansion!RowOK: " + r.stdout.strip()[:400], rep)
         else:
             print("REPLAY: row accepted - not reproduced")
